@@ -27,6 +27,8 @@
 (*   "no-skip"         the allocator does not skip known lexical forms     *)
 (*   "late-reject"     the deletions are applied before the failure of the *)
 (*                     INSERT instantiation is noticed                     *)
+(*   "dedup-solutions" equal solutions of the WHERE multiset are           *)
+(*                     instantiated once (one blank node instead of n)     *)
 (***************************************************************************)
 EXTENDS Update
 
@@ -56,9 +58,11 @@ TInit ==
   /\ op \in Ops
   /\ pc = "where" /\ pend = {} /\ D = {} /\ I = {} /\ bmap = <<>> /\ ctr \in {1, 2} /\ fresh = {} /\ nd = 0 /\ ni = 0
 
+\* "dedup-solutions": equal solutions of the multiset are instantiated once
+OccOf(M) == IF Variant = "dedup-solutions" THEN {<<m, 1>> : m \in DOMAIN M} ELSE Occ(M)
 Where ==
   /\ pc = "where"
-  /\ pend' = Occ(Solutions0(Ctx(quads, graphs), op))
+  /\ pend' = OccOf(Solutions0(Ctx(quads, graphs), op))
   /\ pc' = "instdel"
   /\ UNCHANGED <<quads, graphs, pre, op, D, I, bmap, ctr, fresh, nd, ni>>
 
